@@ -554,7 +554,13 @@ func Run(f func() error) (res string) {
 			res = "panic"
 		}
 	}()
-	return Outcome(f())
+	err := f()
+	if err != nil {
+		// the report is RENDERED as a caller would log it: rendering must not panic and must not touch the validated value
+		_ = err.Error()
+		_ = fmt.Sprintf("%v|%+v", err, err)
+	}
+	return Outcome(err)
 }
 `
 
@@ -1016,8 +1022,37 @@ func (r *runner) runAll(scs []*Scenario) []*DeclResult {
 				}
 			}
 		}
+		// two more directories that share their package NAME and their struct name (api/v1/types, api/v2/types): a per-run
+		// table keyed by "package name . type name" or by the base name of the output file mixes them up
+		dup := map[string]string{
+			"dupa/types/x.go": "package types\n\ntype User struct {\n\t//govalid:required\n\tName string\n}\n",
+			"dupb/types/x.go": "package types\n\ntype User struct {\n\t//govalid:gt=0\n\tAge int\n\n\t//govalid:minlength=2\n\tName string\n}\n",
+		}
+		for rel, c := range dup {
+			fp := filepath.Join(r.mod(), rel)
+			_ = os.MkdirAll(filepath.Dir(fp), 0o755)
+			_ = os.WriteFile(fp, []byte(c), 0o644)
+		}
+		dirs = append(dirs, "./dupa/types", "./dupb/types")
 		for round := 0; round < 2; round++ {
+			if round == 1 {
+				// history: every validator file is STALE (an older generation is present); the invocation must bring each of
+				// them up to date again, not only the first file of each name it meets
+				for _, id := range ids {
+					for n, c := range before[id] {
+						_ = os.WriteFile(filepath.Join(r.mod(), "p"+id, n), []byte(c+"\n// stale: written by an earlier generation\n"), 0o644)
+					}
+				}
+			}
 			o, code := r.cmd(r.mod(), r.govalid, dirs...)
+			for _, rel := range []string{"dupa/types/x_user_validator.go", "dupb/types/x_user_validator.go"} {
+				if _, err := os.Stat(filepath.Join(r.mod(), rel)); err != nil {
+					fail(ids[0], fmt.Sprintf("one generator invocation over all %d packages plus two directories that are both `package types` declaring `User` (round %d, exit %d): %s was not generated; generator output: %s", len(ids), round+1, code, rel, tail(o, 600)))
+				}
+			}
+			if bo, bc := r.cmd(r.mod(), "go", "build", "./dupa/types", "./dupb/types"); bc != 0 {
+				fail(ids[0], fmt.Sprintf("the two `package types` directories no longer build after the invocation: %s", tail(bo, 600)))
+			}
 			for _, id := range ids {
 				after := validators(filepath.Join(r.mod(), "p"+id))
 				for n, c := range before[id] {
